@@ -147,6 +147,30 @@ CHECKS = {
              "with the real macros for every error kind and compared on parsed components (call path, argument list, pattern text/file:line or index, mismatch positions and values).",
         design_ref="DESIGN.md section 7, C19",
         technique="Coq proof (rendering lemmas by induction over argument lists / sub-patterns) + generated-program co-execution against the real macros"),
+    "C06": dict(
+        text="Machine-checked theorems (Props/C06.v): matching! as a compiler (front end, guess_arg_kind, arm list with m/l identifiers and &&-joined guard tokens, diagnostics arm, catch-all) "
+             "is proved equal to a Rust match evaluator for all inputs outside the F3 class (known finding: a bare top-level `||` guard next to an eq!/ne! operand, C06_refuted), and independent of the "
+             "reporter (diagnostics on/off) for ALL inputs; matching!() accepts everything; packing and AsRef coercions are views. Tied to /repo on every run by compiling ~420 generated matching! "
+             "invocations with the real macro and evaluating them over their whole argument domain unordered, ordered, and next to a literal Rust match compiled by rustc: model, spec and "
+             "implementation must agree.",
+        design_ref="DESIGN.md section 7, C06",
+        technique="Coq proof over an executable macro model (compile = rust_match) + generated-program co-execution with rustc's own match as oracle; F3 as known finding"),
+    "C15": dict(
+        text="Machine-checked theorems (Props/C15.v): an unmentioned provided method runs the default body in any state; running the default body through the mock IS making its required calls "
+             "directly, in order, on the same shared state (same responses, counters, ordered index, slots, errors) with the body's result built from exactly those responses; every receiver kind "
+             "evaluates the same MockFn on the same shared state and only decides what happens to the instance. Tied to /repo by generated clause sets (literal builder chains compiled with the real "
+             "macros) and histories mixing direct and delegated calls through &self, &mut self, by-value, Rc/Arc (sole owner and shared) and Pin<&mut Self> receivers on originals and clones. The "
+             "sole-owner Rc/Arc defect found by this check (F2) was repaired by a fix: commit.",
+        design_ref="DESIGN.md section 7, C15",
+        technique="Coq proof (delegation = fold of direct calls over the shared state) + generated-program co-execution through every receiver kind"),
+    "C16": dict(
+        text="Machine-checked theorems (Props/C16.v): an Unmock continuation reaches the registered function iff the generated body has the arm, otherwise the call records and panics CannotUnmock "
+             "naming the method; the function receives the caller's arguments in declaration order (or the listed parameter expressions); calls it makes back into the mock are evaluated on the "
+             "same shared state in program order - recursion to ANY depth n, stopping where a nested level is answered by a pattern. Known finding F1 (C16_known_F1_refuted): no arm is generated "
+             "for `&mut self`/Pin receivers. Tied to /repo by generated clause sets over an inventory with the three unmock_with forms at different positions (plain, explicit params, `_`, slots "
+             "behind skipped receiver-less functions), u3 recursing to depth 0..7 through partially mocked levels, strict and partial.",
+        design_ref="DESIGN.md section 7, C16",
+        technique="Coq proof (finish table, recursion lemma by induction on depth) + generated-program co-execution; F1 as known finding"),
 }
 
 NOT_YET = "check not built yet (work in progress in this session; designed in DESIGN.md section 7)"
